@@ -90,7 +90,7 @@ SHADOW_MODULES = [
     "renormalizer.lib.krylov.krylov", "renormalizer.utils.rk", "renormalizer.mps.symbolic_mpo",
     "renormalizer.model.model", "renormalizer.model.basis", "renormalizer.mps.thermalprop",
     "renormalizer.tn.tree", "renormalizer.tn.treebase", "renormalizer.tn.node", "renormalizer.tn.time_evolution",
-    "renormalizer.tn.symbolic_ttno", "renormalizer.model.h_qc", "renormalizer.utils.configs",
+    "renormalizer.tn.symbolic_ttno", "renormalizer.model.h_qc", "renormalizer.utils.configs", "renormalizer.utils.quantity",
 ]
 
 
